@@ -692,13 +692,67 @@ class CallMixin:
                 out.append((SExc('KeyError', args[0]), s))
         return out
 
+    def sm_update(self, d, args, kwargs, st, node):
+        """s.update(t) for another set object t of the same element type: pointwise union; the new length is only known
+        through the facts true of every real set"""
+        if len(args) != 1 or not (isinstance(args[0], SRef) and args[0].cls.kind == 'set' and args[0].cls.k == d.cls.k):
+            raise Unsupported('set.update with %r' % (args,))
+        o = args[0]
+        s = st.copy()
+        dom, size = self.hload(s, d, 'dom'), self.hload(s, d, 'size')
+        odom, osize = self.hload(s, o, 'dom'), self.hload(s, o, 'size')
+        x = z3.Const(s.fresh.name('xu'), d.cls.k.sort())
+        nd = z3.Lambda([x], z3.Or(z3.Select(dom, x), z3.Select(odom, x)))
+        ns = self.fresh(s, 'union_size', z3.IntSort())
+        self.hstore(s, d, 'dom', nd)
+        self.hstore(s, d, 'size', ns)
+        xq = z3.Const(s.fresh.name('xs'), d.cls.k.sort())
+        s = s.assume(z3.And(ns >= size, ns >= osize, ns <= size + osize, ns >= 0,
+                            (ns == 0) == z3.ForAll([xq], z3.Not(z3.Select(nd, xq)))))
+        self.trusted.add('builtin set: len(s) >= 0 and len(s) == 0 iff s has no member; max(len) <= len(s | t) <= len(s) + len(t)')
+        return [(SNone(), s)]
+
     def sm_contains(self, d, args, kwargs, st, node):
         return [(SBool(z3.Select(self.hload(st, d, 'dom'), self.coerce(st, args[0], d.cls.k))), st)]
 
     def bi_set(self, args, kwargs, st, node):
         if not args:
             return [(SLit('set', []), st)]
+        cls = getattr(self, 'set_class', None)
+        if len(args) == 1 and isinstance(args[0], SVal) and cls is not None:
+            # set(opaque iterable): a fresh set with arbitrary members (the iterable is assumed to be iterable and hashable)
+            self.assumptions.add('set(x) of an opaque argument: x is an iterable of hashable items (no TypeError)')
+            s = st.copy()
+            r = self.new_ref(s, cls)
+            self.fresh_set(s, r, self.f_setof(args[0].t) if cls.k.sort() == Val else None)
+            return [(r, s)]
         raise Unsupported('set(iterable)')
+
+    def fresh_set(self, s, r, dom, upper=None):
+        """give set object r the member predicate dom (arbitrary when None) and an unknown length constrained only by the
+        facts true of every real set"""
+        cls = r.cls
+        if dom is None:
+            dom = self.fresh(s, 'members', z3.ArraySort(cls.k.sort(), z3.BoolSort()))
+        n = self.fresh(s, 'setlen', z3.IntSort())
+        self.hstore(s, r, 'dom', dom)
+        self.hstore(s, r, 'size', n)
+        xq = z3.Const(s.fresh.name('xs'), cls.k.sort())
+        fact = z3.And(n >= 0, (n == 0) == z3.ForAll([xq], z3.Not(z3.Select(dom, xq))))
+        if upper is not None:
+            fact = z3.And(fact, n <= upper)
+        s.pc = s.pc + (fact,)
+        self.trusted.add('builtin set: len(s) >= 0 and len(s) == 0 iff s has no member')
+
+    def set_difference(self, a, b, st, inplace=False):
+        s = st.copy()
+        x = z3.Const(s.fresh.name('xd'), a.cls.k.sort())
+        adom, bdom = self.hload(s, a, 'dom'), self.hload(s, b, 'dom')
+        nd = z3.Lambda([x], z3.And(z3.Select(adom, x), z3.Not(z3.Select(bdom, x))))
+        r = a if inplace else self.new_ref(s, a.cls)
+        self.fresh_set(s, r, nd, upper=self.hload(st, a, 'size'))
+        self.trusted.add('builtin set difference: members of the left operand that are not in the right one')
+        return r, s
 
     # lists
     def lm_append(self, l, args, kwargs, st, node):
